@@ -86,6 +86,9 @@ def check_obsfcst_layout(ctx):
         if isinstance(st, ast.Assign) and len(st.targets) == 1 and isinstance(st.targets[0], ast.Subscript) and dotted(st.targets[0].value) == "y":
             sl = st.targets[0].slice
             if isinstance(sl, ast.Tuple) and len(sl.elts) == 2:
+                if isinstance(sl.elts[1], ast.Slice):
+                    raise AnalysisError("ObsFcst._get_x_y stores a block of columns at once (y[:, %s] = %s): which input / quantile ends up in which "
+                                        "column cannot be read off the store" % (norm(sl.elts[1]), norm(st.value)[:60]))
                 stores.append(sl.elts[1])
     for n_ in ast.walk(c.methods["_plot_core"]):
         if isinstance(n_, ast.Subscript) and dotted(n_.value) in ("y", "labels") and isinstance(n_.ctx, ast.Load):
@@ -657,6 +660,8 @@ def run(ctx):
     ctx.rule("C16.7", "series of the murphy, roc, error-decomposition, performance and droc diagrams by value: the element drawn at the generic index equals the definition as a rational function; provenance of the observed event, the probability, obs/fcst and the series' input")
     from . import c16v
     c16v.check_diagram_values(ctx)
+    ctx.rule("C16.8", "maps: the markers on the map of input f are selected and coloured by column f of the score matrix")
+    c16v.map_columns(ctx)
     ctx.rule("C16.6", "standard line plots: column f = metric of input f over the -r intervals; undefined scores are not replaced by numbers")
     check_standard_xy(ctx)
     ctx.note("UNCOVERED for C16.4: fss, auto*, timeseries, meteo, against, hist/sort (C07.8), maps, rank, impact, reliability/discrimination series values, "
